@@ -137,10 +137,25 @@ def gen_case(r, cid, impl, nops, allow_overflow=False, stats=None):
     ops.append("OP dump")
     return head, ops
 
-def gen_cases(seed, n, impls=("cache", "cacheof_sa", "cacheof_ii"), nops=(5, 60), allow_overflow=False, stats=None):
+def densify(case):
+    """physical snapshot before every removing call and every Count, and a Count
+    right after every DeleteExpired / Clear (used by the C06 / C08 / C15 checks)"""
+    h, ops = case
+    out = []
+    for op in ops:
+        name = op.split()[1]
+        if name in ("delete", "getanddelete", "deleteexpired", "count"):
+            out.append("OP dump")
+        out.append(op)
+        if name in ("deleteexpired", "clear"):
+            out += ["OP dump", "OP count"]
+    return h, out
+
+def gen_cases(seed, n, impls=("cache", "cacheof_sa", "cacheof_ii"), nops=(5, 60), allow_overflow=False, stats=None, dense=False):
     r = random.Random(seed)
     cases = []
     for i in range(n):
         impl = impls[i % len(impls)]
-        cases.append(gen_case(r, "c%d" % i, impl, r.randint(*nops), allow_overflow, stats))
+        c = gen_case(r, "c%d" % i, impl, r.randint(*nops), allow_overflow, stats)
+        cases.append(densify(c) if dense else c)
     return cases
